@@ -3,7 +3,8 @@
 Wire mode on the virtual-time loop: real EZSP -> real bellows.uart.connect -> real Gateway +
 AshProtocol -> fake serial transport -> faulty FIFO line -> independent NCP-side ASH endpoint
 -> framing-strict frame-level NCP of version V.  Sequence under test:
-    connect, startup_reset, write_config({}), reset, version, write_config({}).
+    connect, startup_reset, write_config({}), reset, version, write_config({}),
+    stop_ezsp, startup_reset, write_config({})   (the last three are ControllerApplication._reset()).
 The oracle sits on the NCP side and decodes headers independently.
 """
 from __future__ import annotations
@@ -23,7 +24,8 @@ PROPERTY = "C09"
 LEVEL = "fault_enumeration"
 RULE = (
     "A run = (NCP protocol version in 4..14, 15, 16, 32) x (device path: serial, or socket:// with the "
-    "NCP's spontaneous start-up RSTACK absent / at 0.5 s (seen) / at 1.5 s (late)) x (fault vector over "
+    "NCP's spontaneous start-up RSTACK absent / at 0.5 s (seen) / at 1.5 s (late; the RST sent meanwhile lost, "
+    "or read by the NCP once it is up)) x (fault vector over "
     "the first 12 frames on the line: none, every single fault, every pair of faults, each from {drop, "
     "detectable corruption, duplicate in a read of its own, duplicate within one read}).  Non-trivial = at least one fault, or a socket path; distinct = "
     "distinct (version, path mode, fault vector)."
@@ -41,7 +43,7 @@ ASSUMPTIONS = [
 ]
 REACH = {t: ["versions_all", "socket_seen", "socket_late", "socket_absent", "serial", "second_reset_fallback",
              "recovered_data_fault", "clean_failure_on_rst_fault", "second_connect_ok", "newer_than_known",
-             "double_fault", "rstack_doubled_in_one_read"] for t in ("quick", "thorough")}
+             "double_fault", "rstack_doubled_in_one_read", "socket_late_queued", "startup_reset_again_on_same_connection"] for t in ("quick", "thorough")}
 SHARD_TIMEOUT = {"quick": 900, "thorough": 3600}
 VERSIONS = list(range(4, 15)) + [15, 16, 32]
 KINDS = ["drop", "corrupt", "dup", "dup1"]  # dup: copy in a read of its own; dup1: both copies in one read
@@ -71,7 +73,7 @@ def vectors(tier, V):
 def shards(tier, seed):
     out = []
     for V in VERSIONS:
-        for mode in ("serial", "sock_absent", "sock_seen", "sock_late"):
+        for mode in ("serial", "sock_absent", "sock_seen", "sock_late", "sock_late_queued"):
             out.append({"version": V, "mode": mode, "tier": tier, "seed": seed})
     return out
 
@@ -91,13 +93,34 @@ def run_case(V, mode, vector, seed):
                 try:
                     await ez.connect(use_thread=False)
                     ws.line.armed = armed
-                    if mode in ("sock_seen", "sock_late") and tag == "first":
-                        # the NCP (zigbeed) is still booting: deaf until it announces itself
+                    if mode in ("sock_seen", "sock_late", "sock_late_queued") and tag == "first":
+                        # the NCP (zigbeed) is still booting: deaf until it announces itself - or, in
+                        # the "queued" variant, it reads what arrived meanwhile once it is up (its boot
+                        # RSTACK is then followed at once by the RSTACK answering the host's RST)
                         ws.silent = True
+                        held = []
+                        if mode == "sock_late_queued":
+                            orig_h2n = ws.line.sink["h2n"]
+                            ws.line.sink["h2n"] = lambda chunk: held.append(chunk) if ws.silent else orig_h2n(chunk)
 
                         def boot():
                             ws.silent = False
-                            ws.spontaneous_reset()
+                            if not held:
+                                ws.spontaneous_reset()
+                                return
+                            # boot RSTACK and the answer to the RST read from the socket buffer leave
+                            # the NCP back to back and reach the host in one read
+                            out = []
+                            real_send = ws.line.send
+                            ws.line.send = lambda d, data: out.append(bytes(data)) if d == "n2h" else real_send(d, data)
+                            try:
+                                ws.spontaneous_reset()
+                                for chunk in held:
+                                    ws.ash.feed(chunk)
+                            finally:
+                                ws.line.send = real_send
+                            held.clear()
+                            ws.line.send("n2h", b"".join(out))
 
                         loop.io_at(loop.time() + (0.5 if mode == "sock_seen" else 1.5), boot)
                     step = "startup_reset"
@@ -117,6 +140,15 @@ def run_case(V, mode, vector, seed):
                     await ez.write_config({})
                     info["steps"].append((tag, "second_round", "ok"))
                     info["version2"] = ez.ezsp_version
+                    # what ControllerApplication._reset() does on the same connection
+                    step = "third_startup_reset"
+                    trace.append(("mark", loop.time(), "third_round"))
+                    ez.stop_ezsp()
+                    await ez.startup_reset()
+                    step = "write_config3"
+                    await ez.write_config({})
+                    info["steps"].append((tag, "third_round", "ok"))
+                    info["version3"] = ez.ezsp_version
                     return ez, None
                 except BaseException as ex:  # noqa: BLE001
                     info["steps"].append((tag, step, repr(ex)[:160]))
@@ -167,7 +199,7 @@ def judge(V, mode, vector, trace, info):
         facts.add("rstack_doubled_in_one_read")
     any_fault = any(e[4] != "ok" for e in lines)
     first_ok = all(s[2] == "ok" for s in info["steps"] if s[0] == "first") and \
-        any(s[1] == "second_round" for s in info["steps"] if s[0] == "first")
+        any(s[1] == "third_round" for s in info["steps"] if s[0] == "first")
     # framing on the wire, as seen by the strict NCP
     if info.get("framing_errors"):
         fe = info["framing_errors"][0]
@@ -222,9 +254,24 @@ def judge(V, mode, vector, trace, info):
         elif after:
             bad.append(("C09/negotiation/no-legacy-fallback-after-reset",
                         f"after the second reset the first frame was {after[0][4].hex()}"))
+    if first_ok and any(e[0] == "mark" and e[2] == "third_round" for e in trace):
+        # a start-up reset on the same connection: no spontaneous RSTACK arrives this time, so the
+        # host must reset the NCP itself and negotiate again from the legacy format
+        idx = next(i for i, e in enumerate(trace) if e[0] == "mark" and e[2] == "third_round")
+        seg = trace[idx:]
+        rst = [e for e in seg if e[0] == "line" and e[2] == "h2n" and e[3] and e[3][0] == "RST"]
+        rx3 = [e for e in seg if e[0] == "ncp_rx"]
+        if not rst:
+            bad.append(("C09/handshake/startup-reset-without-reset",
+                        "startup_reset() on the established connection wrote no RST although the NCP sent no RSTACK of its own; "
+                        f"first EZSP frame afterwards: {rx3[0][2:4] if rx3 else None}"))
+        elif rx3 and not (rx3[0][2] == "version" and rx3[0][3] == "legacy"):
+            bad.append(("C09/negotiation/no-legacy-fallback-after-reset", f"after the third reset the first frame was {rx3[0][4].hex()}"))
+        else:
+            facts.add("startup_reset_again_on_same_connection")
     # outcome
     if first_ok:
-        if info["version"] != V or info.get("version2") != V:
+        if info["version"] != V or info.get("version2") != V or info.get("version3") != V:
             bad.append(("C09/version/not-adopted", f"NCP v{V}: EZSP.ezsp_version is {info['version']} / {info.get('version2')}"))
         want_handler = "EZSPv%d" % min(V, 14)
         if info["handler"] not in (want_handler, "NoneType"):
@@ -288,7 +335,8 @@ def run_shard(desc) -> Acc:
             acc.violation(key, msg, case, pretty(trace)[:80] + [repr(s) for s in info["steps"]])
         for f in facts:
             acc.hit(f)
-        acc.hit({"serial": "serial", "sock_absent": "socket_absent", "sock_seen": "socket_seen", "sock_late": "socket_late"}[mode])
+        acc.hit({"serial": "serial", "sock_absent": "socket_absent", "sock_seen": "socket_seen", "sock_late": "socket_late",
+                 "sock_late_queued": "socket_late_queued"}[mode])
         if V >= 15:
             acc.hit("newer_than_known")
         if sum(1 for f in vec if f != "ok") == 2:
